@@ -205,3 +205,43 @@ package cose
 //@   invariant loop#1: allochere(hdr.Protected)
 //@   invariant loop#2: allochere(hdr.Protected) && allochere(hdr.Unprotected)
 //@   ensures @newmaps err == nil ==> allochere(hdr.Protected) && allochere(hdr.Unprotected)
+
+// ---- IV / nonce freshness (C05): every crypter draws the IV inside the call from the
+// random source it was given, hands exactly that buffer to the cipher and puts exactly
+// that value into the unprotected header under the IV label ---------------------------------
+//@ func cose.aeadCrypter.Encrypt
+//@   params c rand plaintext additionalData
+//@   local IvLabel = UnOp#3
+//@   local err = extract1:call:io.Reader.Read#1
+//@   local nonce = MakeSlice#1
+//@   props C05 C10(sweep)
+//@   sweep bounds,panic,make,nilmem
+//@   callsites Read 1
+//@   callsites Seal 1
+//@   callassert Read#1: @source u(arg0) == u(rand)
+//@   callassert Seal#1: @iv filledfrom(arg2) == u(rand)
+//@   ensures @header ? err == nil ==> mapval(result1, IvLabel) == u(nonce)
+//@ func cose.ctrCrypter.Encrypt
+//@   params c rand plaintext additionalData
+//@   local IvLabel = UnOp#3
+//@   local err = extract1:call:io.ReadFull#1
+//@   local iv = MakeSlice#1
+//@   props C05 C10(sweep)
+//@   sweep bounds,panic,make,nilmem
+//@   callsites ReadFull 1
+//@   callsites NewCTR 1
+//@   callassert NewCTR#1: @iv filledfrom(arg1) == u(rand) && len(arg1) > 0
+//@   ensures @header ? err == nil ==> mapval(unprotected, IvLabel) == u(iv)
+//@ func cose.cbcCrypter.Encrypt
+//@   params c rand plaintext additionalData
+//@   local IvLabel = UnOp#4
+//@   local err = extract1:call:io.ReadFull#1
+//@   local iv = MakeSlice#1
+//@   props C05 C10(sweep)
+//@   sweep bounds,panic,make,nilmem
+//@   requires @len len(plaintext) < 1 << 40
+//@   requires @aes BlockSizeOf(u(c.Cipher)) == 16
+//@   callsites ReadFull 1
+//@   callsites NewCBCEncrypter 1
+//@   callassert NewCBCEncrypter#1: @iv filledfrom(arg1) == u(rand) && len(arg1) > 0
+//@   ensures @header ? err == nil ==> mapval(unprotected, IvLabel) == u(iv)
